@@ -38,6 +38,13 @@ def gen(rng, tier):
                 splits = G.gen_splits(rng, len(head), rng.choice(["one", "two", "k", "bytes"]))
                 yield {"family": "h11_incomplete", "kind": "h11_incomplete", "limit": limit, "data": head, "splits": splits, "tag": n,
                        "seed": rng.randrange(1 << 30)}
+        # ---- what the parser holds behind the *final* request of a connection (it is never going to be parsed) ----
+        for limit in (1000, 16384):
+            for junk in (5000, 300000):
+                for mode in ("close-header", "http10"):
+                    n += 1
+                    yield {"family": "h11_incomplete.behind-final-request", "kind": "h11_behind_final", "limit": limit, "junk": junk, "mode": mode, "tag": n,
+                           "seed": rng.randrange(1 << 30)}
         # ---- h2_max_concurrent_streams ------------------------------------------------------
         for limit in (1, 2, 5, 100):
             for extra in (0, 1, 3):
@@ -123,6 +130,28 @@ def run_one(case, tally):
         return _recycle_processes(case, tally)
     findings, obs_all = [], []
     for be in ("asyncio", "trio"):
+        if kind == "h11_behind_final":
+            # the application is slow to answer (so the connection stays up) while the client keeps sending after its last request
+            req = (b"GET /t%d HTTP/1.1\r\nHost: h\r\nConnection: close\r\n\r\n" if case["mode"] == "close-header" else b"GET /t%d HTTP/1.0\r\nHost: h\r\n\r\n") % case["tag"]
+            junk = b"X" * case["junk"]
+            c = {"config": {"h11_max_incomplete_size": case["limit"], "keep_alive_timeout": 5000}, "conn": {},
+                 "apps": {"default": [["recv_until_end"], ["wait", "go"], ["respond", 200, [], b"late"]]},
+                 "client": [["feed", req], ["settle"], ["feed_split", junk, [min(60000, len(junk))] * (len(junk) // 60000) + ([len(junk) % 60000] if len(junk) % 60000 else [])],
+                            ["settle"]], "sched": {"seed": case["seed"]}, "horizon": 20.0}
+            ob = run_case(c, be)
+            obs_all.append(ob)
+            if ob.harness_error or ob.handler == "exception":
+                tally.inconclusive["harness-or-crash"] += 1
+                continue
+            tally.clause("h11-incomplete")
+            held = getattr(ob, "parser_buffered", None)
+            if held is None:
+                tally.inconclusive["parser-buffer-probe-unavailable"] += 1
+            elif held > case["limit"] + 65536:
+                findings.append({"clause": "h11-incomplete", "sig": "C18.h11-incomplete/buffered-beyond-limit/behind-final-request", "backend": be,
+                                 "detail": "after its final request (%s) the client sent %d more bytes; with h11_max_incomplete_size=%d the connection's parser "
+                                           "holds %d of them and the connection is still open" % (case["mode"], case["junk"], case["limit"], held)})
+            continue
         if kind == "h11_incomplete":
             c = {"config": {"h11_max_incomplete_size": case["limit"], "keep_alive_timeout": 5000}, "conn": {},
                  "apps": {"default": _tag_app(case["tag"])}, "client": [["feed_split", case["data"], case["splits"]], ["settle"]],
